@@ -7,6 +7,32 @@ from tools import manifest_text as T
 
 registry._register_all()
 ALL = ["C%02d" % i for i in range(1, 21)]
+RULE_NAME = {
+    ("undo", "check"): "UNDO", ("undo", "check_iddata"): "IDDATA", ("scm", "check"): "SCM", ("scm", "check_narrow"): "NARROW",
+    ("lbseq", "check"): "LBSEQ", ("mirror", "check"): "MIRROR", ("mirror", "check_dirstate"): "DIRSTATE", ("arm", "check"): "ARM",
+    ("plumb", "check"): "PLUMB", ("opsib", "check"): "OPSIB", ("sibpos", "check"): "SIBPOS", ("bts", "check"): "BTS",
+    ("panics", "check_match"): "PANICS", ("panics", "check_compile"): "PANICS", ("recguard", "check"): "RECGUARD",
+    ("recguard", "check_limits"): "LIMITS", ("mustuse", "check"): "MUSTUSE", ("strsort", "check"): "STRSORT", ("negstr", "check"): "NEGSTR",
+    ("names", "check"): "NAMES", ("types", "check"): "TYPES", ("tiling", "check"): "TILING", ("backref", "check"): "BACKREFI",
+    ("commute", "check"): "COMMUTE", ("propneg", "check"): "PROPNEG", ("truncast", "check"): "TRUNCAST", ("bitgeom", "check"): "BITGEOM",
+    ("tables", "check_wellformed"): "TABLES", ("tables", "check_mode"): "FOLDMODE", ("tables", "check_identities"): "UAX44",
+    ("tables", "check_wiring"): "WIRING", ("tables", "check_stride"): "STRIDE", ("apirules", "check_splice"): "SPLICE",
+    ("apirules", "check_escape"): "ESCAPE", ("apirules", "check_scanner"): "SCANNER", ("twin", "check_twin"): "TWIN",
+    ("twin", "check_xconfig"): "XCONFIG", ("twin", "check_possib"): "POSSIB", ("twin", "check_hashiter"): "HASHITER",
+    ("twin", "check_cfginv"): "CFGINV", ("twin", "check_countsib"): "COUNTSIB",
+}
+
+
+def rules_of(p):
+    out = []
+    for r in registry.PROPS[p]["rules"]:
+        k = (r["module"], r["fn"])
+        n = RULE_NAME.get(k) or (r["fn"][len("check_"):].upper() if r["module"] == "extra" else None)
+        assert n, k
+        cfg = "" if r["configs"] == ("default",) else "[" + ",".join(r["configs"]) + "]"
+        if n + cfg not in out:
+            out.append(n + cfg)
+    return out
 checks = []
 for p in ALL:
     if p not in registry.PROPS or p not in T.CLAIMS:
@@ -19,7 +45,9 @@ for p in ALL:
         "evidence_file": "/verif/evidence/%s.json" % p,
         "replay_cmd_template": "bin/check %s --explain {path}" % p,
         "engine": "regress-facts + rules",
-        "level_claimed": {"category": registry.PROPS[p]["level"], "text": c["text"], "design_ref": c.get("design_ref", "DESIGN.md §4 " + p)},
+        "level_claimed": {"category": registry.PROPS[p]["level"],
+                          "text": c["text"] + " Rules run (DESIGN.md §3; quick = listed configurations, thorough = every rule on all seven "
+                                              "feature configurations): " + ", ".join(rules_of(p)) + ".", "design_ref": c.get("design_ref", "DESIGN.md §4 " + p)},
         "level_note": c["note"],
         "technique": c["technique"],
     })
